@@ -186,6 +186,20 @@ SetFeesEv(ev, t) ==
   ELSE Unchanged(ev, t)
        \o << <<"C18.setfees.valid-by-owner-rejected", ~(ev.actor = "owner" /\ FeesValid(f))>> >>
 
+\* the three pause switches (C17), always set as a triple through the factory
+SetTogEv(ev, t) ==
+  LET g == [d |-> ev.args.d, w |-> ev.args.w, s |-> ev.args.s] IN
+  IF ev.res = "ok"
+  THEN << <<"C16.settog.owner-only", ev.actor = "owner">> >> \o ObsChecks([st EXCEPT !.tog = g], ev.obs)
+  ELSE Unchanged(ev, t) \o << <<"C17.settog.by-owner-rejected", ev.actor # "owner">> >>
+\* a paused operation is refused whatever the pool's assets are, and only its own switch pauses it
+TogChecks(ev) ==
+  LET mine == CASE ev.ev = "provide" -> st.tog.d [] ev.ev \in {"withdraw", "wdirect"} -> st.tog.w
+                [] ev.ev = "swap" -> st.tog.s [] OTHER -> TRUE IN
+  << <<"C17.accepted-only-while-its-switch-is-on", ev.res = "ok" => mine>>,
+     <<"C17.refused-as-disabled-only-by-its-own-switch",
+        (ev.ev \in {"provide", "withdraw", "swap"} /\ ev.res # "ok" /\ ev.disabled) => ~mine>> >>
+
 DonateEv(ev, t) ==
   IF ev.res = "ok" THEN ObsChecks(DonateNext(st, ev.actor, ev.args.a, ev.args.x), ev.obs)
   ELSE Unchanged(ev, t)
@@ -203,10 +217,11 @@ EvChecks(ev, t) ==
      [] ev.ev = "swap" -> SwapEv(ev, t)
      [] ev.ev = "collect" -> CollectEv(ev, t)
      [] ev.ev = "setfees" -> SetFeesEv(ev, t)
+     [] ev.ev = "settog" -> SetTogEv(ev, t)
      [] ev.ev = "donate" -> DonateEv(ev, t)
      [] ev.ev = "lptransfer" -> LpTransferEv(ev, t)
      [] OTHER -> << <<"TRACE.unknown-event", FALSE>> >>)
-  \o Globals(st, t, ev.obs)
+  \o Globals(st, t, ev.obs) \o TogChecks(ev)
 
 ResetChecks(t, o) ==
   << <<"C17.fresh.all-enabled", t.tog.d /\ t.tog.w /\ t.tog.s>>,
